@@ -297,6 +297,110 @@ class Bytes(Stage):
         return res
 
 
+# ------------------------------------------------------------------------------------------------
+# coverage-guided stage (atheris, thorough tier): byte strings -> the same oracles
+
+def fuzz_target(target, data):
+    """one execution of a fuzz target; never raises for findings (returns them)"""
+    from ..runner import safe_execute
+    text = data.decode('utf-8', 'replace')
+    if target == 'line':
+        st, case = Lines(), dict(lines=[text.replace('\n', ' ').replace('\r', ' ')], final_newline=True)
+    elif target == 'log':
+        lines = [l.replace('\r', ' ') for l in text.split('\n')] or ['']
+        st, case = Lines(), dict(lines=lines[:40], final_newline=text.endswith('\n'))
+    elif target == 'matcher':
+        st, case = Matchers(), text
+    elif target == 'command':
+        cmds = [c.replace('\r', ' ') for c in text.split('\n')][:6]
+        st, case = Commands(), dict(specs=FUZZ_HISTORY, cmds=cmds, selected=None, color=False)
+    else:
+        raise ValueError(target)
+    return safe_execute(st, case)
+
+
+FUZZ_HISTORY = [
+    dict(conn=None, t_us=1000, sent=True, iface='wl_display', id=1, name='get_registry', args=[['new', 'wl_registry', 2]]),
+    dict(conn=None, t_us=2000, sent=False, iface='wl_registry', id=2, name='global', args=[['uint', 1], ['str', 'wl_seat'], ['uint', 7]]),
+    dict(conn=None, t_us=3000, sent=True, iface='wl_registry', id=2, name='bind', args=[['uint', 1], ['str', 'wl_seat'], ['uint', 7], ['new', None, 3]]),
+    dict(conn=None, t_us=4000, sent=False, iface='wl_seat', id=3, name='capabilities', args=[['uint', 3]]),
+    dict(conn=None, t_us=2004000, sent=True, iface='wl_display', id=1, name='sync', args=[['new', 'wl_callback', 4]]),
+    dict(conn=None, t_us=2005000, sent=False, iface='wl_display', id=1, name='delete_id', args=[['uint', 4]]),
+]
+
+
+def fuzz_seeds(target):
+    lines = [wire.render(m, 'new') for m in FUZZ_HISTORY] + [wire.render(m, 'old') for m in FUZZ_HISTORY[:3]]
+    if target == 'line':
+        return [l.encode() for l in lines]
+    if target == 'log':
+        return [('\n'.join(lines) + '\n').encode(), b'chatter\n' + lines[0].encode()]
+    if target == 'matcher':
+        return [b'wl_surface', b'xdg_* ! xdg_popup, .get_popup', b'55a.[motion, axis]', b'([x=0, y=0])', b'B: 7c', b'wl_pointer(buffer=)', b'.(nil)', b'(1.5, "s")']
+    return [b'list wl_seat ~ 2', b'filter ! .sync\nbreakpoint .bind', b'connection A\nhelp matcher', b'matcher [a ! b].c(d=1)']
+
+
+def fuzz_dictionary(target):
+    if target in ('line', 'log'):
+        return [t for t in LINE_TOKENS if t and '\x00' not in t]
+    return WORDS + list(MATCHER_ALPHA.strip()) + COMMAND_WORDS
+
+
+class Fuzz(Stage):
+    """atheris (libFuzzer) campaigns, python3-vt; thorough tier only. Pinned only approximately by -seed: any finding is
+    kept as an input file, which is the reproducible unit (replayed in-process through the same oracle)."""
+    name = 'atheris'
+    kind = 'custom'
+    tiers = ('thorough',)
+    TARGETS = ['line', 'log', 'matcher', 'command']
+    PY = '/opt/veriftools/pyvenv/bin/python'
+
+    def examples(self, tier):
+        return 8       # campaigns: 4 targets x {empty corpus, sample corpus}
+
+    def run(self, col, tier, seed, nshards, shard):
+        import subprocess, tempfile, shutil, glob, sys
+        if not os.path.exists(self.PY):
+            res = Result()
+            res.label('atheris-unavailable')
+            col.add(self, dict(target='none', data=[]), res)
+            return
+        budget = int(os.environ.get('WDV_FUZZ_SECONDS', '120'))
+        campaigns = [(t, c) for t in self.TARGETS for c in ('empty', 'sample')]
+        for k, (target, corpus) in enumerate(campaigns):
+            if k % nshards != shard:
+                continue
+            out = tempfile.mkdtemp(prefix='wdv-fuzz-')
+            try:
+                e = dict(os.environ, PYTHONPATH=env.VERIF, WDV_REPO=env.REPO, PYTHONDONTWRITEBYTECODE='1')
+                subprocess.run([self.PY, '-m', 'wdverif.fuzz_c18', '--target', target, '--time', str(budget), '--seed', str(seed % 2**31 or 1),
+                                '--out', out, '--corpus', corpus], cwd=env.VERIF, env=e, stdout=subprocess.DEVNULL, stderr=subprocess.DEVNULL,
+                               timeout=budget + 120)
+                st = json.load(open(os.path.join(out, 'stats.json'))) if os.path.exists(os.path.join(out, 'stats.json')) else dict(executions=0)
+                res = Result()
+                res.evals = st.get('executions', 0)
+                res.nontrivial = st.get('executions', 0) > 0
+                res.label('atheris:%s:%s-corpus' % (target, corpus))
+                res.count('atheris-executions', st.get('executions', 0))
+                res.count('atheris-distinct-nontrivial-inputs', st.get('distinct_nontrivial', 0))
+                res.sample = dict(target=target, corpus=corpus, executions=st.get('executions', 0), seconds=round(st.get('wall', 0), 1))
+                col.add(self, dict(target=target, corpus=corpus, campaign=k, seed=seed), res)
+                for f in sorted(glob.glob(os.path.join(out, 'bucket-*.json'))):
+                    b = json.load(open(f))
+                    case = dict(target=target, data=b['data'])
+                    r = self.execute(case)          # confirm in-process, outside the fuzzer
+                    col.add(self, case, r)
+            finally:
+                shutil.rmtree(out, ignore_errors=True)
+
+    def execute(self, case):
+        if case.get('target') in (None, 'none') or 'data' not in case:
+            return Result()
+        res = fuzz_target(case['target'], bytes(case['data']))
+        res.label('atheris-finding-replayed')
+        return res
+
+
 class C18(Prop):
     id = 'C18'
     rule = ('lines: valid lines mutated (delete/duplicate/splice tokens, huge numbers, id 0, quotes, escapes, spliced lines) and arbitrary Unicode '
@@ -306,11 +410,12 @@ class C18(Prop):
             'varied states - nothing escapes, every command writes to out or err (resume/quit excepted); bytes: mutated/undecodable byte strings '
             'to real main.py -l/-p/-r - expected exit status, no traceback, as many Closed as New notices. non-trivial = input that is neither '
             'empty nor fully valid (a line set that is partly decoded and partly passed through, a matcher/command longer than 2-3 characters, a '
-            'byte string that is not valid UTF-8); distinct by SHA-1 of the case.')
+            'byte string that is not valid UTF-8); distinct by SHA-1 of the case. thorough tier: 8 atheris (libFuzzer) campaigns (4 targets x empty/sample corpus) '
+            'with the same oracles inside the target and a token dictionary.')
     assumptions = ['a slow input is inconclusive, never a violation', 'LC_ALL=C.UTF-8',
                    'internal errors that the line loop catches, prints and survives are counted (counters internal-error-printed-and-survived:*) but are '
                    'not violations of the statement (the input is consumed to the end and every connection is closed)']
-    stages = [Lines(), Matchers(), Commands(), Bytes()]
+    stages = [Lines(), Matchers(), Commands(), Bytes(), Fuzz()]
 
 
 PROP = C18()
